@@ -315,5 +315,195 @@ theorem parseLoop_spec (rest : List Modinfo.Attr) : ∀ (pre ext : Bytes) (z : N
     rw [← hbuf, this]
     simp
 
+/-! ### version chains: checked reads against the reference decoder -/
+
+theorem eq_ofNat_of_toNat {n : Nat} (x : BitVec n) (v : Nat) (h : x.toNat = v) : x = BitVec.ofNat n v := by
+  subst h; simp
+
+theorem field_some {e : Enc} {bs : Bytes} {off w v : Nat} (h : Spec.field e bs off w = some v) :
+    off + w ≤ bs.length ∧ v = decodeInt e (slice bs off w) := by
+  unfold Spec.field at h
+  split at h
+  · exact ⟨by assumption, by injection h with h; exact h.symm⟩
+  · cases h
+
+theorem rd16_spec {b : SecBuf} (hI : b.Inv) (e : Enc) (site : String) (off v : Nat)
+    (h : Spec.field e b.content off 2 = some v) :
+    ∃ x, rd16 site b.getData.data off = .ok x ∧ (cv16 e x).toNat = v := by
+  obtain ⟨h1, h2⟩ := field_some h
+  refine ⟨BitVec.ofNat 16 (hostDecode (slice b.content off 2)), ?_, ?_⟩
+  · simp only [rd16, getData_read hI site off 2 h1 (by omega), bind, Except.bind, pure, Except.pure]
+  · rw [h2]; exact cv16_toNat e _ (slice_length_of_le h1)
+
+theorem rd32_spec {b : SecBuf} (hI : b.Inv) (e : Enc) (site : String) (off v : Nat)
+    (h : Spec.field e b.content off 4 = some v) :
+    ∃ x, rd32 site b.getData.data off = .ok x ∧ (cv32 e x).toNat = v := by
+  obtain ⟨h1, h2⟩ := field_some h
+  refine ⟨BitVec.ofNat 32 (hostDecode (slice b.content off 4)), ?_, ?_⟩
+  · simp only [rd32, getData_read hI site off 4 h1 (by omega), bind, Except.bind, pure, Except.pure]
+  · rw [h2]; exact cv32_toNat e _ (slice_length_of_le h1)
+
+theorem strLookup_eq {s : SecBuf} (hS : s.Inv) (idx : BitVec 32) :
+    strLookup (some s) idx = Spec.strAt s.content idx.toNat := by
+  have hl := content_length hS
+  obtain ⟨_, ⟨h1, h2⟩ | ⟨a, hd, h2, h3⟩⟩ := getData_content hS
+  · simp [strLookup, h1, h2, Spec.strAt]
+  · simp only [strLookup, hd, h3, Spec.strAt]
+    by_cases hi : s.size.toNat ≤ idx.toNat
+    · simp only [hi, if_true]
+      rw [List.drop_eq_nil_of_le (by omega)]
+      simp
+    · simp only [hi, if_false]
+
+theorem decodeVerneed_fields {e : Enc} {bs : Bytes} {off : Nat} {r : Spec.Verneed}
+    (h : Spec.decodeVerneed e bs off = some r) :
+    Spec.field e bs off 2 = some r.version ∧ Spec.field e bs (off + 4) 4 = some r.file ∧
+    Spec.field e bs (off + 8) 4 = some r.aux ∧ Spec.field e bs (off + 12) 4 = some r.next := by
+  simp only [Spec.decodeVerneed, bind, Option.bind_eq_some_iff, pure, Option.some.injEq] at h
+  obtain ⟨a1, h1, a2, h2, a3, h3, a4, h4, a5, h5, rfl⟩ := h
+  exact ⟨h1, h3, h4, h5⟩
+
+
+theorem decodeVernaux_fields {e : Enc} {bs : Bytes} {off : Nat} {r : Spec.Vernaux}
+    (h : Spec.decodeVernaux e bs off = some r) :
+    Spec.field e bs off 4 = some r.hash ∧ Spec.field e bs (off + 4) 2 = some r.flags ∧
+    Spec.field e bs (off + 6) 2 = some r.other ∧ Spec.field e bs (off + 8) 4 = some r.name := by
+  simp only [Spec.decodeVernaux, bind, Option.bind_eq_some_iff, pure, Option.some.injEq] at h
+  obtain ⟨a1, h1, a2, h2, a3, h3, a4, h4, a5, h5, rfl⟩ := h
+  exact ⟨h1, h2, h3, h4⟩
+
+/-- the start of a chain that reaches a decodable record is itself decodable -/
+theorem verneedOff_start {e : Enc} {bs : Bytes} {j vn off : Nat} {r' : Spec.Verneed}
+    (h1 : Spec.verneedOff e bs j vn = some off) (h2 : Spec.decodeVerneed e bs off = some r') :
+    ∃ r, Spec.decodeVerneed e bs vn = some r := by
+  cases j with
+  | zero => simp only [Spec.verneedOff, Option.some.injEq] at h1; subst h1; exact ⟨r', h2⟩
+  | succ j =>
+    simp only [Spec.verneedOff, bind, Option.bind_eq_some_iff] at h1
+    obtain ⟨r, hr, _⟩ := h1
+    exact ⟨r, hr⟩
+
+theorem cv32_off (e : Enc) (x : BitVec 32) : (BitVec.setWidth 64 (cv32 e x)).toNat = (cv32 e x).toNat := by
+  have := (cv32 e x).isLt
+  simp only [BitVec.toNat_setWidth, Nat.reducePow] at *
+  omega
+
+theorem verneed_loop_spec {b : SecBuf} (hI : b.Inv) (e : Enc) (no : BitVec 32) (off : Nat)
+    (r' : Spec.Verneed) (hr' : Spec.decodeVerneed e b.content off = some r') :
+    ∀ (j : Nat) (i : BitVec 32) (vn : Nat) (r : Spec.Verneed) (fuel : Nat),
+      Spec.decodeVerneed e b.content vn = some r →
+      Spec.verneedOff e b.content j vn = some off →
+      i.toNat + j = no.toNat → j < fuel →
+      Verneed.loop e b.getData.data no fuel i (vn, vn + r.aux) = .ok (off, off + r'.aux) := by
+  intro j
+  induction j with
+  | zero =>
+    intro i vn r fuel hr ho hi hf
+    obtain ⟨f, rfl⟩ : ∃ f, fuel = f + 1 := ⟨fuel - 1, by omega⟩
+    simp only [Spec.verneedOff, Option.some.injEq] at ho
+    subst ho
+    rw [hr] at hr'; cases hr'
+    have hc : vr_loop_cond i no = false := by
+      simp only [vr_loop_cond, BitVec.ult, decide_eq_false_iff_not]; omega
+    simp [Verneed.loop, hc, pure, Except.pure]
+  | succ j ih =>
+    intro i vn r fuel hr ho hi hf
+    obtain ⟨f, rfl⟩ : ∃ f, fuel = f + 1 := ⟨fuel - 1, by omega⟩
+    simp only [Spec.verneedOff, bind, Option.bind_eq_some_iff] at ho
+    obtain ⟨r0, hr0, ho⟩ := ho
+    rw [hr] at hr0; cases hr0
+    obtain ⟨r1, hr1⟩ := verneedOff_start ho hr'
+    have hc : vr_loop_cond i no = true := by
+      simp only [vr_loop_cond, BitVec.ult, decide_eq_true_eq]; omega
+    obtain ⟨_, _, _, hnext⟩ := decodeVerneed_fields hr
+    obtain ⟨_, _, haux1, _⟩ := decodeVerneed_fields hr1
+    obtain ⟨nx, hnx, hnxv⟩ := rd32_spec hI e "verneed/vn_next" (vn + 12) r.next hnext
+    have hvn' : vn + (vr_next_off (cv32 e) nx).toNat = vn + r.next := by
+      simp only [vr_next_off, cv32_off, hnxv]
+    obtain ⟨ax, hax, haxv⟩ := rd32_spec hI e "verneed/vn_aux" (vn + r.next + 8) r1.aux haux1
+    have hstep : Verneed.step e b.getData.data vn = .ok (vn + r.next, vn + r.next + r1.aux) := by
+      have o1 : Elfxx_Verneed.vn_next_off = 12 := rfl
+      have o2 : Elfxx_Verneed.vn_aux_off = 8 := rfl
+      simp only [Verneed.step, o1, o2, hnx, hvn', hax, bind, Except.bind, pure, Except.pure, vr_aux_off1,
+        cv32_off, haxv]
+    have hi1 : (i + 1).toNat + j = no.toNat := by
+      have h1 : (1 : BitVec 32).toNat = 1 := rfl
+      have := no.isLt
+      simp only [BitVec.toNat_add, h1, Nat.reducePow] at *
+      omega
+    have := ih (i + 1) (vn + r.next) r1 f hr1 ho hi1 (by omega)
+    simp only [Verneed.loop, hc, if_true, hstep, bind, Except.bind, this]
+
+theorem decodeVerdef_fields {e : Enc} {bs : Bytes} {off : Nat} {r : Spec.Verdef}
+    (h : Spec.decodeVerdef e bs off = some r) :
+    Spec.field e bs (off + 2) 2 = some r.flags ∧ Spec.field e bs (off + 4) 2 = some r.ndx ∧
+    Spec.field e bs (off + 8) 4 = some r.hash ∧ Spec.field e bs (off + 12) 4 = some r.aux ∧
+    Spec.field e bs (off + 16) 4 = some r.next := by
+  simp only [Spec.decodeVerdef, bind, Option.bind_eq_some_iff, pure, Option.some.injEq] at h
+  obtain ⟨a1, h1, a2, h2, a3, h3, a4, h4, a5, h5, a6, h6, a7, h7, rfl⟩ := h
+  exact ⟨h2, h3, h5, h6, h7⟩
+
+theorem decodeVerdaux_fields {e : Enc} {bs : Bytes} {off : Nat} {r : Spec.Verdaux}
+    (h : Spec.decodeVerdaux e bs off = some r) : Spec.field e bs off 4 = some r.name := by
+  simp only [Spec.decodeVerdaux, bind, Option.bind_eq_some_iff, pure, Option.some.injEq] at h
+  obtain ⟨a1, h1, a2, h2, rfl⟩ := h
+  exact h1
+
+theorem verdefOff_start {e : Enc} {bs : Bytes} {j vd off : Nat} {r' : Spec.Verdef}
+    (h1 : Spec.verdefOff e bs j vd = some off) (h2 : Spec.decodeVerdef e bs off = some r') :
+    ∃ r, Spec.decodeVerdef e bs vd = some r := by
+  cases j with
+  | zero => simp only [Spec.verdefOff, Option.some.injEq] at h1; subst h1; exact ⟨r', h2⟩
+  | succ j =>
+    simp only [Spec.verdefOff, bind, Option.bind_eq_some_iff] at h1
+    obtain ⟨r, hr, _⟩ := h1
+    exact ⟨r, hr⟩
+
+theorem verdef_loop_spec {b : SecBuf} (hI : b.Inv) (e : Enc) (no : BitVec 32) (off : Nat)
+    (r' : Spec.Verdef) (hr' : Spec.decodeVerdef e b.content off = some r') :
+    ∀ (j : Nat) (i : BitVec 32) (vd : Nat) (r : Spec.Verdef) (fuel : Nat),
+      Spec.decodeVerdef e b.content vd = some r →
+      Spec.verdefOff e b.content j vd = some off →
+      i.toNat + j = no.toNat → j < fuel →
+      Verdef.loop e b.getData.data no fuel i (vd, vd + r.aux) = .ok (off, off + r'.aux) := by
+  intro j
+  induction j with
+  | zero =>
+    intro i vd r fuel hr ho hi hf
+    obtain ⟨f, rfl⟩ : ∃ f, fuel = f + 1 := ⟨fuel - 1, by omega⟩
+    simp only [Spec.verdefOff, Option.some.injEq] at ho
+    subst ho
+    rw [hr] at hr'; cases hr'
+    have hc : vd_loop_cond i no = false := by
+      simp only [vd_loop_cond, BitVec.ult, decide_eq_false_iff_not]; omega
+    simp [Verdef.loop, hc, pure, Except.pure]
+  | succ j ih =>
+    intro i vd r fuel hr ho hi hf
+    obtain ⟨f, rfl⟩ : ∃ f, fuel = f + 1 := ⟨fuel - 1, by omega⟩
+    simp only [Spec.verdefOff, bind, Option.bind_eq_some_iff] at ho
+    obtain ⟨r0, hr0, ho⟩ := ho
+    rw [hr] at hr0; cases hr0
+    obtain ⟨r1, hr1⟩ := verdefOff_start ho hr'
+    have hc : vd_loop_cond i no = true := by
+      simp only [vd_loop_cond, BitVec.ult, decide_eq_true_eq]; omega
+    obtain ⟨_, _, _, _, hnext⟩ := decodeVerdef_fields hr
+    obtain ⟨_, _, _, haux1, _⟩ := decodeVerdef_fields hr1
+    obtain ⟨nx, hnx, hnxv⟩ := rd32_spec hI e "verdef/vd_next" (vd + 16) r.next hnext
+    have hvd' : vd + (vd_next_off (cv32 e) nx).toNat = vd + r.next := by
+      simp only [vd_next_off, cv32_off, hnxv]
+    obtain ⟨ax, hax, haxv⟩ := rd32_spec hI e "verdef/vd_aux" (vd + r.next + 12) r1.aux haux1
+    have hstep : Verdef.step e b.getData.data vd = .ok (vd + r.next, vd + r.next + r1.aux) := by
+      have o1 : Elfxx_Verdef.vd_next_off = 16 := rfl
+      have o2 : Elfxx_Verdef.vd_aux_off = 12 := rfl
+      simp only [Verdef.step, o1, o2, hnx, hvd', hax, bind, Except.bind, pure, Except.pure, vd_aux_off1,
+        cv32_off, haxv]
+    have hi1 : (i + 1).toNat + j = no.toNat := by
+      have h1 : (1 : BitVec 32).toNat = 1 := rfl
+      have := no.isLt
+      simp only [BitVec.toNat_add, h1, Nat.reducePow] at *
+      omega
+    have := ih (i + 1) (vd + r.next) r1 f hr1 ho hi1 (by omega)
+    simp only [Verdef.loop, hc, if_true, hstep, bind, Except.bind, this]
+
 end C14
 end ElfioVerif
